@@ -46,7 +46,8 @@ def main():
         if suite and rca == 0:
             base = json.load(open("/root/.vp/BASELINE.json"))
             xml = os.path.join(wt, "_run.xml")
-            sh(f"/venv/bin/python -m pytest -ra -q -p no:cacheprovider --timeout=900 --continue-on-collection-errors --junitxml={xml}", cwd=wt, timeout=3000)
+            # private network namespace: the suite opens fixed TCP ports and other runs share this machine
+            sh(f"unshare -rn sh -c 'ip link set lo up; /venv/bin/python -m pytest -ra -q -p no:cacheprovider --timeout=900 --continue-on-collection-errors --junitxml={xml}'", cwd=wt, timeout=3000)
             passed = set()
             for tc in ET.parse(xml).iter("testcase"):
                 if not any(ch.tag in ("failure", "error", "skipped") for ch in tc):
@@ -62,7 +63,7 @@ def main():
                     f = os.path.join(wt, *parts[:i]) + ".py"
                     if os.path.exists(f):
                         node = os.path.relpath(f, wt) + "::" + "::".join(parts[i:] + [tname])
-                        r, _ = sh(f"/venv/bin/python -m pytest -q -p no:cacheprovider --timeout=900 '{node}'", cwd=wt, timeout=900)
+                        r, _ = sh(f"unshare -rn sh -c \"ip link set lo up; /venv/bin/python -m pytest -q -p no:cacheprovider --timeout=900 '{node}'\"", cwd=wt, timeout=900)
                         if r != 0:
                             still.append(m)
                         break
